@@ -278,7 +278,13 @@ Definition best_child (db : list row) (gid : string) : option row :=
 (* C. the fits themselves: what `search.fit` leaves in a directory / in a session               *)
 (* ------------------------------------------------------------------------------------------ *)
 
-Inductive interrupt := NoInterrupt | BeforeSamples | AfterSamples.
+(* where DirectoryPaths.save_all was when the pre-fit output was interrupted (a kill, a full disk, an
+   info value json cannot serialise): the file being written at that moment is absent, or present but
+   truncated (the *Partial variants); everything save_all writes later is absent *)
+Inductive stage :=
+| AtModelInfo | AtInfo | AtInfoPartial | AtSearch | AtSearchPartial | AtModel | AtModelPartial | AtMetadata.
+
+Inductive interrupt := NoInterrupt | BeforeSamples | AfterSamples | PreFit (st : stage).
 
 Record fit_spec := {
   fs_prefix : list string;       (* path_prefix components *)
@@ -304,25 +310,41 @@ Definition spec_path (s : fit_spec) : list string :=
   fs_prefix s ++ opt_list (fs_tag s) ++ [fs_name s; fs_id s].
 
 Definition has_samples (s : fit_spec) : bool :=
-  match fs_interrupt s with BeforeSamples => false | _ => true end.
+  match fs_interrupt s with BeforeSamples | PreFit _ => false | _ => true end.
+Definition is_prefit (s : fit_spec) : bool :=
+  match fs_interrupt s with PreFit _ => true | _ => false end.
 Definition spec_completed (s : fit_spec) : bool :=
   match fs_interrupt s with NoInterrupt => true | _ => false end.
 
+Definition info_json (s : fit_spec) : list string := match fs_info s with Some _ => ["info"] | None => [] end.
+
+(* save_all writes: .identifier, model.info, [info.json], search.json, model.json, metadata -- in this order *)
+Definition prefit_jsons (s : fit_spec) (st : stage) : list string :=
+  match st with
+  | AtModelInfo | AtInfo => []
+  | AtInfoPartial => ["info"]
+  | AtSearch => info_json s
+  | AtSearchPartial | AtModel => info_json s ++ ["search"]
+  | AtModelPartial | AtMetadata => info_json s ++ ["search"; "model"]
+  end.
+
 Definition spec_jsons (s : fit_spec) : list string :=
-  (match fs_info s with Some _ => ["info"] | None => [] end)
-  ++ ["search"; "model"] ++ fs_extra_jsons s
-  ++ (if has_samples s then ["samples_summary"; "samples_info"] else []).
+  match fs_interrupt s with
+  | PreFit st => prefit_jsons s st
+  | _ => info_json s ++ ["search"; "model"] ++ fs_extra_jsons s
+         ++ (if has_samples s then ["samples_summary"; "samples_info"] else [])
+  end.
 
 (* DirectoryPaths: save_all (.identifier, info, search.json, model.json, metadata last), then the
    samples, `.completed` last *)
 Definition write_fit (s : fit_spec) : folder :=
-  {| f_path := spec_path s; f_metadata := true; f_completed := spec_completed s; f_marker := None;
+  {| f_path := spec_path s; f_metadata := negb (is_prefit s); f_completed := spec_completed s; f_marker := None;
      f_parent_file := None; f_written_id := fs_id s; f_class := fs_class s; f_keys := fs_keys s;
      f_name := fs_name s; f_tag := fs_tag s; f_reload_id := fs_reload_id s; f_model := fs_stored_model s;
      f_info := fs_info s;
      f_samples := if has_samples s then Some (fs_samples s) else None;
      f_load_error := if has_samples s then fs_load_error s else None;
-     f_jsons := spec_jsons s; f_analyses := fs_analyses s |}.
+     f_jsons := spec_jsons s; f_analyses := if is_prefit s then [] else fs_analyses s |}.
 
 (* DatabasePaths: Fit(id = identifier) created by save_all, filled by save_samples / save_summary,
    is_complete set by completed() *)
@@ -387,12 +409,14 @@ Definition outcome_matches (m : outcome) (o : observed) : bool :=
 Definition folder_eqb (a b : folder) : bool :=
   list_eqb String.eqb (f_path a) (f_path b) && Bool.eqb (f_metadata a) (f_metadata b)
   && Bool.eqb (f_completed a) (f_completed b) && opt_str_eqb (f_marker a) (f_marker b)
-  && opt_str_eqb (f_parent_file a) (f_parent_file b) && String.eqb (f_written_id a) (f_written_id b)
-  && String.eqb (f_name a) (f_name b) && opt_str_eqb (f_tag a) (f_tag b)
-  && String.eqb (f_model a) (f_model b) && opt_str_eqb (f_info a) (f_info b)
-  && opt_eqb (list_eqb sample_eqb) (f_samples a) (f_samples b)
-  && set_eqb (f_jsons a) (f_jsons b)
-  && list_eqb set_eqb (f_analyses a) (f_analyses b).
+  && String.eqb (f_written_id a) (f_written_id b) && set_eqb (f_jsons a) (f_jsons b)
+  && (if f_metadata a || is_some (f_marker a) then
+        opt_str_eqb (f_parent_file a) (f_parent_file b)
+        && String.eqb (f_name a) (f_name b) && opt_str_eqb (f_tag a) (f_tag b)
+        && String.eqb (f_model a) (f_model b) && opt_str_eqb (f_info a) (f_info b)
+        && opt_eqb (list_eqb sample_eqb) (f_samples a) (f_samples b)
+        && list_eqb set_eqb (f_analyses a) (f_analyses b)
+      else true   (* a folder that is no search output: only what exists in it is compared *)).
 
 Inductive case :=
 (* from_dict(to_dict(search)) for class `cls` whose search.json carries `keys`: did it succeed? *)
